@@ -26,9 +26,10 @@ PROPS = {
                       "source type (FLOAT-INEXACT sites are listed as known findings). Text numerals: structural clause only (errno tested after strto*).",
         "level_note": "trusts clang's AST/CFG/constant evaluator, the id->C type rows of scalar_sizes[] as oracle, glibc's ctype table domain [-128,255]; not decided: strtoumax accepting '-', consumed-length arithmetic",
         "rules": [
-            {"run": rules_effect.run_mustcheck, "floor": 800, "scope": "anchors"},
-            {"run": rules_effect.run_resultclass, "floor": 500, "scope": "anchors"},
-            {"run": rules_path.run_argdeviant, "floor": 5, "scope": "anchors"},
+            {"run": rules_path.run_indexstep, "floor": 60, "scope": "anchor-dirs"},
+            {"run": rules_effect.run_mustcheck, "floor": 800, "scope": "anchor-dirs"},
+            {"run": rules_effect.run_resultclass, "floor": 500, "scope": "anchor-dirs"},
+            {"run": rules_path.run_argdeviant, "floor": 5, "scope": "anchor-dirs"},
             {"run": rules_conv.run, "floor": 300},
             {"run": rules_conv.run_erange, "floor": 5, "scope": "anchors"},
             {"run": rules_conv.run_convboth, "floor": 8},
@@ -52,9 +53,10 @@ PROPS = {
                       "functions. Decides the 'correctly described' and 'in the range reserved for their kind' clauses, not uniqueness over histories.",
         "level_note": "trusts clang constant evaluation; scalar_sizes[] rows are the oracle for id->C type; file-static counters only incremented are assumed non-negative (checked by monotone-counter inference)",
         "rules": [
-            {"run": rules_effect.run_mustcheck, "floor": 800, "scope": "anchors"},
-            {"run": rules_effect.run_resultclass, "floor": 500, "scope": "anchors"},
-            {"run": rules_path.run_argdeviant, "floor": 5, "scope": "anchors"},
+            {"run": rules_path.run_indexstep, "floor": 60, "scope": "anchor-dirs"},
+            {"run": rules_effect.run_mustcheck, "floor": 800, "scope": "anchor-dirs"},
+            {"run": rules_effect.run_resultclass, "floor": 500, "scope": "anchor-dirs"},
+            {"run": rules_path.run_argdeviant, "floor": 5, "scope": "anchor-dirs"},
             {"run": rules_table.run_typemap, "floor": 120, "scope": "anchors"},
             {"run": rules_table.run_regrange, "floor": 6},
             {"run": rules_table.run_countfail, "floor": 4},
@@ -78,9 +80,10 @@ PROPS = {
                       "every code value the encoder can emit (255 codes x 2 regular codecs evaluated). Not the byte-level round trip.",
         "level_note": "trusts clang constant folding of the macro-expanded formulas; pattern anchors: `++code == E`, conditional `c + K`, `_ctx & 0xff`",
         "rules": [
-            {"run": rules_effect.run_mustcheck, "floor": 800, "scope": "anchors"},
-            {"run": rules_effect.run_resultclass, "floor": 500, "scope": "anchors"},
-            {"run": rules_path.run_argdeviant, "floor": 5, "scope": "anchors"},
+            {"run": rules_path.run_indexstep, "floor": 60, "scope": "anchor-dirs"},
+            {"run": rules_effect.run_mustcheck, "floor": 800, "scope": "anchor-dirs"},
+            {"run": rules_effect.run_resultclass, "floor": 500, "scope": "anchor-dirs"},
+            {"run": rules_path.run_argdeviant, "floor": 5, "scope": "anchor-dirs"},
             {"run": rules_lin.run_lincodec, "floor": 30, "use_anchor_files": True},
             {"run": rules_path.run_cursorpair, "floor": 2, "use_anchor_files": True},
             {"run": rules_path.run_undoset, "floor": 2, "use_anchor_files": True},
@@ -104,10 +107,11 @@ PROPS = {
                       "getter reads, with the registered type and width' and 'a refused value leaves the object unchanged' for all paths of the setters.",
         "level_note": "direct stores and mem* writes into the object are effects; writes made by callees that receive &obj->field are attributed to the callee's own result (not counted)",
         "rules": [
+            {"run": rules_path.run_indexstep, "floor": 60, "scope": "anchor-dirs"},
             {"run": rules_event.run_finipaths, "floor": 8, "scope": "anchors"},
-            {"run": rules_effect.run_mustcheck, "floor": 800, "scope": "anchors"},
-            {"run": rules_effect.run_resultclass, "floor": 500, "scope": "anchors"},
-            {"run": rules_path.run_argdeviant, "floor": 5, "scope": "anchors"},
+            {"run": rules_effect.run_mustcheck, "floor": 800, "scope": "anchor-dirs"},
+            {"run": rules_effect.run_resultclass, "floor": 500, "scope": "anchor-dirs"},
+            {"run": rules_path.run_argdeviant, "floor": 5, "scope": "anchor-dirs"},
             {"run": rules_ident.run_narrowedge, "floor": 20},
             {"run": rules_ident.run_convnarrow, "floor": 1, "use_anchor_files": True},
             {"run": rules_layout.run_terminated, "floor": 1},
@@ -139,9 +143,10 @@ PROPS = {
                       "not the full byte-sequence equivalence of in-place moves.",
         "level_note": "a failed obligation is reported only when its state is exact (no loop join on the path); failures behind joins are listed as undecided in the evidence (0 today)",
         "rules": [
-            {"run": rules_effect.run_mustcheck, "floor": 800, "scope": "anchors"},
-            {"run": rules_effect.run_resultclass, "floor": 500, "scope": "anchors"},
-            {"run": rules_path.run_argdeviant, "floor": 5, "scope": "anchors"},
+            {"run": rules_path.run_indexstep, "floor": 60, "scope": "anchor-dirs"},
+            {"run": rules_effect.run_mustcheck, "floor": 800, "scope": "anchor-dirs"},
+            {"run": rules_effect.run_resultclass, "floor": 500, "scope": "anchor-dirs"},
+            {"run": rules_path.run_argdeviant, "floor": 5, "scope": "anchor-dirs"},
             {"run": rules_lin.run_linbounds, "floor": 95, "use_anchor_files": True},
             {"run": rules_path.run_splitcopy, "floor": 2, "use_anchor_files": True},
             {"run": rules_effect.run_objects, "floor": 10, "ctx": {"records": ["mpt_queue", "queue"], "min_functions": 10}, "use_anchor_files": True},
@@ -164,9 +169,10 @@ PROPS = {
         "level_text": "Four structural necessary conditions of 'each request answered at most once, to the right requester', each enumerated over all functions of the anchor files.",
         "level_note": "consumer types are inferred from every convert(x, K, &p) call in the program; first-member embedding counts as the same interface",
         "rules": [
-            {"run": rules_effect.run_mustcheck, "floor": 800, "scope": "anchors"},
-            {"run": rules_effect.run_resultclass, "floor": 500, "scope": "anchors"},
-            {"run": rules_path.run_argdeviant, "floor": 5, "scope": "anchors"},
+            {"run": rules_path.run_indexstep, "floor": 60, "scope": "anchor-dirs"},
+            {"run": rules_effect.run_mustcheck, "floor": 800, "scope": "anchor-dirs"},
+            {"run": rules_effect.run_resultclass, "floor": 500, "scope": "anchor-dirs"},
+            {"run": rules_path.run_argdeviant, "floor": 5, "scope": "anchor-dirs"},
             {"run": rules_iter.run_containerof, "floor": 10, "use_anchor_files": True},
             {"run": rules_reply.run_idcap, "floor": 1},
             {"run": rules_reply.run_formatargs, "floor": 100, "scope": "anchors"},
@@ -192,9 +198,10 @@ PROPS = {
         "level_text": "Decides that the fragment cursor never leaves the fragment list and every loop terminates on its own exit test, for all 10 message files; not the value equivalence.",
         "level_note": "companion count inferred from struct message fields (cont/clen), locals loaded from them, or the integer parameter following an iovec parameter",
         "rules": [
-            {"run": rules_effect.run_mustcheck, "floor": 800, "scope": "anchors"},
-            {"run": rules_effect.run_resultclass, "floor": 500, "scope": "anchors"},
-            {"run": rules_path.run_argdeviant, "floor": 5, "scope": "anchors"},
+            {"run": rules_path.run_indexstep, "floor": 60, "scope": "anchor-dirs"},
+            {"run": rules_effect.run_mustcheck, "floor": 800, "scope": "anchor-dirs"},
+            {"run": rules_effect.run_resultclass, "floor": 500, "scope": "anchor-dirs"},
+            {"run": rules_path.run_argdeviant, "floor": 5, "scope": "anchor-dirs"},
             {"run": rules_lin.run_linmsg, "floor": 30, "use_anchor_files": True},
             {"run": rules_path.run_destindep, "floor": 1, "use_anchor_files": True},
             {"run": rules_path.run_fragstate, "floor": 1, "use_anchor_files": True},
@@ -217,9 +224,10 @@ PROPS = {
         "level_text": "Termination and 'source cursor stays inside the caller's fragment list' for every decoder loop; nothing about the decoded bytes.",
         "level_note": "the destination cursor (dvec) has no separate count: its bound is the relational invariant stated in the source comment and is not decided",
         "rules": [
-            {"run": rules_effect.run_mustcheck, "floor": 800, "scope": "anchors"},
-            {"run": rules_effect.run_resultclass, "floor": 500, "scope": "anchors"},
-            {"run": rules_path.run_argdeviant, "floor": 5, "scope": "anchors"},
+            {"run": rules_path.run_indexstep, "floor": 60, "scope": "anchor-dirs"},
+            {"run": rules_effect.run_mustcheck, "floor": 800, "scope": "anchor-dirs"},
+            {"run": rules_effect.run_resultclass, "floor": 500, "scope": "anchor-dirs"},
+            {"run": rules_path.run_argdeviant, "floor": 5, "scope": "anchor-dirs"},
             {"run": rules_codec.run, "floor": 20},
             {"run": rules_path.run_cursorpair, "floor": 2, "use_anchor_files": True},
             {"run": rules_path.run_cursorsync, "floor": 6, "use_anchor_files": True},
@@ -247,11 +255,12 @@ PROPS = {
         "extra_scope_files": ["mptcore/config/path_addchar.c", "mptcore/config/path_add.c", "mptcore/config/path_del.c", "mptcore/config/path_set.c",
                               "mptcore/array/array_push.c", "mptcore/array/array_message.c", "mptcore/message/message_append.c"],
         "rules": [
+            {"run": rules_path.run_indexstep, "floor": 60, "scope": "anchor-dirs"},
             {"run": rules_cow.run_bufinstall, "floor": 20, "scope": "anchors"},
             {"run": rules_ref.run_clonefree, "floor": 3, "scope": "anchors"},
-            {"run": rules_effect.run_mustcheck, "floor": 800, "scope": "anchors"},
-            {"run": rules_effect.run_resultclass, "floor": 500, "scope": "anchors"},
-            {"run": rules_path.run_argdeviant, "floor": 5, "scope": "anchors"},
+            {"run": rules_effect.run_mustcheck, "floor": 800, "scope": "anchor-dirs"},
+            {"run": rules_effect.run_resultclass, "floor": 500, "scope": "anchor-dirs"},
+            {"run": rules_path.run_argdeviant, "floor": 5, "scope": "anchor-dirs"},
             {"run": rules_path.run_snprintffit, "floor": 1, "use_anchor_files": True},
             {"run": rules_lin.run_linbuf, "floor": 60, "use_anchor_files": True, "ctx": {"only_dir": "mptcore/array/", "cxx_files": ["mpt++/array.cpp"]}},
             {"run": rules_cow.run, "floor": 20, "use_anchor_files": True},
@@ -276,9 +285,10 @@ PROPS = {
         "level_text": "Decides the link-pairing clauses (every child names its parent after each attach; moved lists have one owner; destroy/clear guards) for every site in the build.",
         "level_note": "idiom list frozen from today's 21 sites, one reason each; anything else is reported",
         "rules": [
-            {"run": rules_effect.run_mustcheck, "floor": 800, "scope": "anchors"},
-            {"run": rules_effect.run_resultclass, "floor": 500, "scope": "anchors"},
-            {"run": rules_path.run_argdeviant, "floor": 5, "scope": "anchors"},
+            {"run": rules_path.run_indexstep, "floor": 60, "scope": "anchor-dirs"},
+            {"run": rules_effect.run_mustcheck, "floor": 800, "scope": "anchor-dirs"},
+            {"run": rules_effect.run_resultclass, "floor": 500, "scope": "anchor-dirs"},
+            {"run": rules_path.run_argdeviant, "floor": 5, "scope": "anchor-dirs"},
             {"run": rules_node.run_childlist, "floor": 2},
             {"run": rules_lin.run_linnode, "floor": 4, "use_anchor_files": True},
             {"run": rules_node.run_childparent, "floor": 18},
@@ -300,11 +310,12 @@ PROPS = {
                       "object kind tears down only at zero (8 kinds); replacement sites release the old referent.",
         "level_note": "vtable slots are resolved from static initialisers; counted kinds are those whose addref implementation calls the raise primitive",
         "rules": [
+            {"run": rules_path.run_indexstep, "floor": 60, "scope": "anchor-dirs"},
             {"run": rules_ref.run_clonefree, "floor": 3, "scope": "anchors"},
             {"run": rules_event.run_finipaths, "floor": 8, "scope": "anchors"},
-            {"run": rules_effect.run_mustcheck, "floor": 800, "scope": "anchors"},
-            {"run": rules_effect.run_resultclass, "floor": 500, "scope": "anchors"},
-            {"run": rules_path.run_argdeviant, "floor": 5, "scope": "anchors"},
+            {"run": rules_effect.run_mustcheck, "floor": 800, "scope": "anchor-dirs"},
+            {"run": rules_effect.run_resultclass, "floor": 500, "scope": "anchor-dirs"},
+            {"run": rules_path.run_argdeviant, "floor": 5, "scope": "anchor-dirs"},
             {"run": rules_iter.run_containerof, "floor": 15, "use_anchor_files": True},
             {"run": rules_lin.run_linfini, "floor": 4},
             {"run": rules_ref.run_raisefail, "floor": 1},
@@ -329,9 +340,10 @@ PROPS = {
         "level_text": "Decides the storage discipline of the inline/external overlay for all functions touching identifier._val/_base (23 reads/writes) on every path.",
         "level_note": "identity comparisons of _base (address-type identifiers in mpt_node_locate) are not content reads",
         "rules": [
-            {"run": rules_effect.run_mustcheck, "floor": 800, "scope": "anchors"},
-            {"run": rules_effect.run_resultclass, "floor": 500, "scope": "anchors"},
-            {"run": rules_path.run_argdeviant, "floor": 5, "scope": "anchors"},
+            {"run": rules_path.run_indexstep, "floor": 60, "scope": "anchor-dirs"},
+            {"run": rules_effect.run_mustcheck, "floor": 800, "scope": "anchor-dirs"},
+            {"run": rules_effect.run_resultclass, "floor": 500, "scope": "anchor-dirs"},
+            {"run": rules_path.run_argdeviant, "floor": 5, "scope": "anchor-dirs"},
             {"run": rules_lin.run_linident, "floor": 18, "use_anchor_files": True},
             {"run": rules_ident.run_inlinefit, "floor": 5},
             {"run": rules_ident.run_identoverlay, "floor": 15},
@@ -356,12 +368,13 @@ PROPS = {
                       "the one place where a length parameter switches meaning cannot drop elements unfinalised.",
         "level_note": "destructor-only traits of non-copyable C++ unique arrays are accepted (noted in evidence)",
         "rules": [
+            {"run": rules_path.run_indexstep, "floor": 60, "scope": "anchor-dirs"},
             {"run": rules_cow.run_bufinstall, "floor": 20, "scope": "anchors"},
             {"run": rules_ref.run_clonefree, "floor": 3, "scope": "anchors"},
             {"run": rules_event.run_finipaths, "floor": 8, "scope": "anchors"},
-            {"run": rules_effect.run_mustcheck, "floor": 800, "scope": "anchors"},
-            {"run": rules_effect.run_resultclass, "floor": 500, "scope": "anchors"},
-            {"run": rules_path.run_argdeviant, "floor": 5, "scope": "anchors"},
+            {"run": rules_effect.run_mustcheck, "floor": 800, "scope": "anchor-dirs"},
+            {"run": rules_effect.run_resultclass, "floor": 500, "scope": "anchor-dirs"},
+            {"run": rules_path.run_argdeviant, "floor": 5, "scope": "anchor-dirs"},
             {"run": rules_lin.run_linbuf, "floor": 60, "ctx": {"files_of": "C04", "only_dir": "mptcore/array/", "cxx_files": ["mpt++/array.cpp"]}},
             {"run": rules_lin.run_linident, "floor": 18, "ctx": {"files": ["mptcore/misc/identifier.c"]}},
             {"run": rules_traits.run_ctorfail, "floor": 2},
@@ -388,9 +401,10 @@ PROPS = {
         "level_text": "Decides the path-element clause (element lengths across the 255 limit are rejected or escaped) and memory-discipline necessary conditions of the store.",
         "level_note": "",
         "rules": [
-            {"run": rules_effect.run_mustcheck, "floor": 800, "scope": "anchors"},
-            {"run": rules_effect.run_resultclass, "floor": 500, "scope": "anchors"},
-            {"run": rules_path.run_argdeviant, "floor": 5, "scope": "anchors"},
+            {"run": rules_path.run_indexstep, "floor": 60, "scope": "anchor-dirs"},
+            {"run": rules_effect.run_mustcheck, "floor": 800, "scope": "anchor-dirs"},
+            {"run": rules_effect.run_resultclass, "floor": 500, "scope": "anchor-dirs"},
+            {"run": rules_path.run_argdeviant, "floor": 5, "scope": "anchor-dirs"},
             {"run": rules_path.run_setbeforeuse, "floor": 40},
             {"run": rules_path.run_queryrest, "floor": 5},
             {"run": rules_lin.run_linpath, "floor": 10},
@@ -415,9 +429,10 @@ PROPS = {
         "level_text": "Termination after reading each character once, and 'a failed parse leaves the target tree as it was', for every input and format (structural proofs over all paths).",
         "level_note": "callee effects on the tree (mpt_node_move/clear inside the merge) belong to the success path",
         "rules": [
-            {"run": rules_effect.run_mustcheck, "floor": 800, "scope": "anchors"},
-            {"run": rules_effect.run_resultclass, "floor": 500, "scope": "anchors"},
-            {"run": rules_path.run_argdeviant, "floor": 5, "scope": "anchors"},
+            {"run": rules_path.run_indexstep, "floor": 60, "scope": "anchor-dirs"},
+            {"run": rules_effect.run_mustcheck, "floor": 800, "scope": "anchor-dirs"},
+            {"run": rules_effect.run_resultclass, "floor": 500, "scope": "anchor-dirs"},
+            {"run": rules_path.run_argdeviant, "floor": 5, "scope": "anchor-dirs"},
             {"run": rules_path.run_localfini, "floor": 1},
             {"run": rules_lin.run_linpath, "floor": 10},
             {"run": rules_path.run_progress, "floor": 8, "use_anchor_files": True},
@@ -441,9 +456,10 @@ PROPS = {
         "level_text": "Decides only the 'values of any length' clause through its two structural necessary conditions; the rest of the property is not decided statically.",
         "level_note": "",
         "rules": [
-            {"run": rules_effect.run_mustcheck, "floor": 800, "scope": "anchors"},
-            {"run": rules_effect.run_resultclass, "floor": 500, "scope": "anchors"},
-            {"run": rules_path.run_argdeviant, "floor": 5, "scope": "anchors"},
+            {"run": rules_path.run_indexstep, "floor": 60, "scope": "anchor-dirs"},
+            {"run": rules_effect.run_mustcheck, "floor": 800, "scope": "anchor-dirs"},
+            {"run": rules_effect.run_resultclass, "floor": 500, "scope": "anchor-dirs"},
+            {"run": rules_path.run_argdeviant, "floor": 5, "scope": "anchor-dirs"},
             {"run": rules_table.run_inlinecap, "floor": 1},
             {"run": rules_path.run_reservecap, "floor": 2, "use_anchor_files": True},
             {"run": rules_ident.run_narrow, "floor": 5, "use_anchor_files": True, "ctx": {"records": ["mpt_parser_context", "parser_context"]}},
@@ -467,10 +483,11 @@ PROPS = {
                       "afterwards') for every store in the dispatcher sources, on all paths.",
         "level_note": "one-shot reply handlers in the stream/connection wait queues (invoked with the reply, then cleared) are outside the anchored files and reported as unattributed",
         "rules": [
+            {"run": rules_path.run_indexstep, "floor": 60, "scope": "anchor-dirs"},
             {"run": rules_event.run_finipaths, "floor": 8, "scope": "anchors"},
-            {"run": rules_effect.run_mustcheck, "floor": 800, "scope": "anchors"},
-            {"run": rules_effect.run_resultclass, "floor": 500, "scope": "anchors"},
-            {"run": rules_path.run_argdeviant, "floor": 5, "scope": "anchors"},
+            {"run": rules_effect.run_mustcheck, "floor": 800, "scope": "anchor-dirs"},
+            {"run": rules_effect.run_resultclass, "floor": 500, "scope": "anchor-dirs"},
+            {"run": rules_path.run_argdeviant, "floor": 5, "scope": "anchor-dirs"},
             {"run": rules_reply.run_formatargs, "floor": 100, "scope": "anchors"},
             {"run": rules_path.run_usednotsize, "floor": 20},
             {"run": rules_event.run_defaultset, "floor": 1},
@@ -494,9 +511,10 @@ PROPS = {
         "level_text": "Protocol-shape clauses of the iterator contract for all 8 iterator kinds in the anchor files: past-the-end is reported, reset restores, descriptions without a number are refused before use.",
         "level_note": "",
         "rules": [
-            {"run": rules_effect.run_mustcheck, "floor": 800, "scope": "anchors"},
-            {"run": rules_effect.run_resultclass, "floor": 500, "scope": "anchors"},
-            {"run": rules_path.run_argdeviant, "floor": 5, "scope": "anchors"},
+            {"run": rules_path.run_indexstep, "floor": 60, "scope": "anchor-dirs"},
+            {"run": rules_effect.run_mustcheck, "floor": 800, "scope": "anchor-dirs"},
+            {"run": rules_effect.run_resultclass, "floor": 500, "scope": "anchor-dirs"},
+            {"run": rules_path.run_argdeviant, "floor": 5, "scope": "anchor-dirs"},
             {"run": rules_iter.run_fieldnull, "floor": 8},
             {"run": rules_iter.run_containerof, "floor": 30, "use_anchor_files": True},
             {"run": rules_iter.run_vtable, "floor": 30, "use_anchor_files": True},
